@@ -321,6 +321,10 @@ def run_check(mod, tier, seed, replay=None):
                 sp, cs = c09.slice_for(ops, tier, random.Random(seed), refused_only=(pid == 'C15'))
                 specs += list(sp)
                 for c in cs:
+                    # a repeat count of 0 gives a zero extent: outside the positive-extent quantifier of the owning properties
+                    # (with constant kinds such a request does not even instantiate); C09 proper keeps those requests
+                    if re.search(r'\brepeats=([0-9]+,)*0(,|\s|$)', c.req):
+                        continue
                     if c09.slice_known(c) is None:
                         c.tags = tuple(c.tags) + ('kind-slice',)
                         slice_cases.append(c)
